@@ -92,6 +92,31 @@ def fn_index(gen_text):
     return idx
 
 
+IMPL_HDR = re.compile(r'^\s*(?:pub\s+)?impl(?:<[^>]*>)?\s+(?:[A-Za-z_][\w:<>, \'&]*?\s+for\s+)?([A-Za-z_]\w*)')
+
+
+def fn_index_q(gen_text):
+    """[(line_no, fn name, qualified name)]: the qualified name is `Type::name` for a fn declared inside `impl .. Type {` (as Verus
+    prints it) and the bare name otherwise."""
+    idx = []
+    depth = 0
+    impl_stack = []      # (type name, depth at which the impl block opened)
+    for n, l in enumerate(gen_text.split('\n'), 1):
+        code = l.split('//')[0]
+        m = FN_DECL.search(code)
+        if m:
+            q = ('%s::%s' % (impl_stack[-1][0], m.group(1))) if impl_stack else m.group(1)
+            idx.append((n, m.group(1), q))
+        mi = IMPL_HDR.match(code)
+        opens = code.count('{'); closes = code.count('}')
+        if mi and opens > closes and not m:
+            impl_stack.append((mi.group(1), depth))
+        depth += opens - closes
+        while impl_stack and depth <= impl_stack[-1][1]:
+            impl_stack.pop()
+    return idx
+
+
 def enclosing_fn(idx, line):
     name = None
     for (n, f) in idx:
